@@ -4,6 +4,7 @@ package mon
 import (
 	"strconv"
 	"strings"
+	"sync"
 
 	"verif/harness/core"
 	"verif/harness/gen"
@@ -72,6 +73,8 @@ func planMix(d *domain, mixes []Mix) []core.Unit {
 			us = append(us, core.Unit{Gen: "bytes", Lo: 0, Hi: 256})
 			// every byte value in every template position of the domain
 			us = append(us, gen.RangeUnits("bytetpl", 256, 16, "")...)
+			// every two-byte UTF-8 character and three ranges of longer ones
+			us = append(us, gen.RangeUnits("utf8tpl", uint64(len(utf8Chars())), 96, "")...)
 		case "scale":
 			// N = size in bytes; one unit per family so that workers share them
 			for i := range d.scale {
@@ -178,12 +181,17 @@ func genMix(d *domain, w *core.Worker, u core.Unit, emit func(core.Case)) bool {
 		for i := u.Lo; i < u.Hi; i++ {
 			base := c[(int(i)*37+11)%len(c)]
 			lens := []int{255, 256, 257, 1024, 4096, 4097, 65536}
-			fillers := d.fillers[:3]
+			all := d.fillers
 			if u.Arg == "1" {
-				lens = []int{255, 256, 257, 1023, 1024, 1025, 4095, 4096, 4097, 8191, 8192, 32768, 65535, 65536, 65537}
-				fillers = d.fillers
+				lens = []int{255, 256, 257, 1023, 1024, 1025, 4095, 4096, 4097, 8191, 8192, 16385, 32768, 65535, 65536, 65537}
 			}
-			for _, n := range lens {
+			for li, n := range lens {
+				// quick: three fillers per (base, length), rotating through the list
+				fillers := all
+				if u.Arg != "1" {
+					k := (int(i)*7 + li*3) % len(all)
+					fillers = []string{all[k], all[(k+1)%len(all)], all[(k+2)%len(all)]}
+				}
 				for pi, filler := range fillers {
 					k := n - len(base)
 					if k <= 0 {
@@ -206,6 +214,21 @@ func genMix(d *domain, w *core.Worker, u core.Unit, emit func(core.Case)) bool {
 			b := string([]byte{byte(i)})
 			for _, t := range d.byteTemplates {
 				emit(core.Case{In: strings.ReplaceAll(t, "\xfe\xfe", b)})
+				// the same byte as a run around the token-length limits (31/32
+				// for SQL token values, 5/6 for the comment prefix test)
+				for _, n := range []int{5, 6, 31, 32, 33} {
+					emit(core.Case{In: strings.ReplaceAll(t, "\xfe\xfe", strings.Repeat(b, n))})
+				}
+			}
+		}
+	case "utf8tpl":
+		// valid multi-byte characters in every template position: code that
+		// narrows a decoded rune to a byte, or trusts unicode.IsSpace / ToUpper
+		// to keep lengths, meets U+0100+b for every ASCII byte b here
+		cs := utf8Chars()
+		for i := u.Lo; i < u.Hi && i < uint64(len(cs)); i++ {
+			for _, t := range d.byteTemplates {
+				emit(core.Case{In: strings.ReplaceAll(t, "\xfe\xfe", cs[i])})
 			}
 		}
 	case "scale":
@@ -223,4 +246,26 @@ func min(a, b int) int {
 		return a
 	}
 	return b
+}
+
+var utf8Once sync.Once
+var utf8List []string
+
+// utf8Chars: U+0080-U+07FF (all two-byte characters), U+2000-U+20FF,
+// U+3000-U+303F, U+FE00-U+FFFF (BOM, specials), U+1F500-U+1F5FF, U+10FF00-U+10FFFF.
+func utf8Chars() []string {
+	utf8Once.Do(func() {
+		add := func(lo, hi rune) {
+			for r := lo; r <= hi; r++ {
+				utf8List = append(utf8List, string(r))
+			}
+		}
+		add(0x80, 0x7ff)
+		add(0x2000, 0x20ff)
+		add(0x3000, 0x303f)
+		add(0xfe00, 0xffff)
+		add(0x1f500, 0x1f5ff)
+		add(0x10ff00, 0x10ffff)
+	})
+	return utf8List
 }
